@@ -36,7 +36,12 @@ RULE = ('one case = initial tree of a sandbox (install directory fresh or popula
         'built with tarfile and extracted by the real untar_file. Streams: benign trees, benign + one hostile member, '
         'link-then-file-through-link, hardlink-then-overwrite, links staying inside, links re-pointed by later members, extraction histories (an update extracted over a first version: same paths, same size and '
         'modification time, other content) and duplicate names in one archive, back slashes in names and targets (one odd component on POSIX), link duplication, back-link replacement, kind '
-        'replacement, fully random; thorough adds every archive of one or two members over a small alphabet (6 names x '
+        'replacement, fully random. Regular and directory members carry permission bits of every shape (executables without owner '
+        'write 0555/0500/4511, set-id, sticky, write-only, 0000, random triplets) and owners: none may show in the result. 30 % of '
+        'the cases name the install directory another way (relative to a working directory the harness enters, ".", "../install", '
+        '"./install/.", trailing "/", through a symbolic link <P>/inst); in the stream "respelled" and 8 % of those the same process '
+        'has first installed a benign archive into ANOTHER directory spelled the same way (other working directory; the link '
+        're-pointed since), whose real directories carry the names the judged archive uses for its links; thorough adds every archive of one or two members over a small alphabet (6 names x '
         '5 targets x 4 kinds: 72 + 5184 archives). Non-trivial = at least one member was extracted or refused for a reason other than '
         'its mere kind; distinct = distinct (initial tree, member list, compression).')
 TRUSTED = ['CPython 3.12 tarfile (data_filter, extract, makelink fallbacks) and posixpath.realpath, and the POSIX '
@@ -44,7 +49,8 @@ TRUSTED = ['CPython 3.12 tarfile (data_filter, extract, makelink fallbacks) and 
            'correspondence run (final tree, outcome class and the verdict of tarfile.data_filter on every member)',
            'the process umask leaves owner read/write on created files (the harness sets 022)',
            'the kernel limit of 40 nested symbolic links is modelled as loop detection']
-ASSUMPTIONS = ['the install directory path itself contains no symbolic link (untar_file is called with a real path)',
+ASSUMPTIONS = ['the text naming the install directory (absolute, relative to the working directory, through symbolic links) '
+               'denotes an existing directory when untar_file is called; its creation by os.makedirs is not modelled',
                'no file inside the install directory is initially a hard link of a file outside it (otherwise '
                'overwriting it changes the outside file whatever the extractor does)',
                'files already present in the install directory are owner-writable',
@@ -115,6 +121,26 @@ T_BS = ['..\\outdir', 'a\\..\\..\\sentinel.txt', 'dir\\f.txt', '..\\sentinel.txt
 N_ABS = ['$P/abs/x.txt', '$P/sentinel.txt', '$P/install/f.txt', '$P/outdir/new.txt', '$P/newabs/y.txt']   # deep: costly in Coq
 N_ABS_SHALLOW = ['$T/ABS/x.txt', '$T/ABS/sub/y.txt', '$T/ABS/f.txt']
 MODES = [0o644, 0o444, 0o600, 0o755, 0o400, 0o000, 0o666, 0o4755]
+# permission bits as archives of real trees carry them: executables of read-only trees (owner x without owner w),
+# owner-only, set-id / sticky bits, write-only, group/world writable.  extract(set_attrs=False) applies none of them.
+MODES_X = [0o555, 0o500, 0o4511, 0o511, 0o550, 0o100, 0o111, 0o544, 0o2555, 0o1555, 0o6555, 0o300, 0o200, 0o777, 0o1777,
+           0o700, 0o711, 0o744, 0o6755, 0o755, 0o4555, 0o501, 0o510]
+
+
+def _mode(rng):
+    r = rng.random()
+    if r < 0.45:
+        return rng.choice(MODES)
+    if r < 0.8:
+        return rng.choice(MODES_X)
+    # any combination: owner / group / other triplets and the three special bits
+    return (rng.choice([0, 0, 0, 1, 2, 4, 6]) << 9) | (rng.randrange(8) << 6) | (rng.randrange(8) << 3) | rng.randrange(8)
+
+
+# how the caller spells the install directory (the tool passes --install_path through unchanged): absolute, relative to
+# the working directory, through a symbolic link, with a trailing slash or '.' components
+HOWS = ['abs', 'rel', 'dot', 'up', 'sym', 'relsym', 'trail', 'dotted']
+HOWS_PRIOR = ['rel', 'dot', 'up', 'sym', 'relsym', 'dotted']     # the same spelling can denote another directory
 
 
 def _rel_name(rng, leafy=True):
@@ -152,11 +178,14 @@ def _data(rng):
 
 
 def _reg(rng, name):
-    return {'k': 'reg', 'name': name, 'data': _data(rng), 'mode': rng.choice(MODES)}
+    return {'k': 'reg', 'name': name, 'data': _data(rng), 'mode': _mode(rng)}
 
 
 def _dir(rng, name):
-    return {'k': 'dir', 'name': name + rng.choice(['', '', '/'])}
+    m = {'k': 'dir', 'name': name + rng.choice(['', '', '/'])}
+    if rng.random() < 0.4:
+        m['mode'] = rng.choice([0o755, 0o555, 0o500, 0o700, 0o000, 0o1777, 0o2755, 0o311])
+    return m
 
 
 def _sym(name, target):
@@ -327,6 +356,45 @@ def _history(rng):
     return v1, (v2 or [dict(v1[0])])
 
 
+def _prior(rng):
+    """a benign archive the same process installed before, into ANOTHER directory that the caller spelled the same way:
+    real directories (and files) under the names later archives use for their links"""
+    ms = []
+    for n in rng.sample(['a', 'b', 'd', 'sub', 'l', 'k', 'out', 'here', 's', 't', 'n', 'q', 'c', 'x', 'ext', 'self', 'pre', 'h'],
+                        rng.randint(1, 4)):
+        ms.append(rng.choice([_reg(rng, n + '/readme.txt'), _dir(rng, n), _reg(rng, n + '/' + rng.choice(DIRS) + '/f.txt'),
+                              _reg(rng, n)]))
+    return ms
+
+
+def _respelled(rng):
+    """(how, prior, pre, members): the install directory is spelled relative to the working directory or through a
+    symbolic link, and the process has already installed an archive into another directory spelled the same way; the
+    members are judged against the directory the spelling denotes NOW"""
+    how = rng.choice(HOWS_PRIOR)
+    v = rng.randrange(6)
+    if v == 0:          # links that are harmless in the earlier directory (real directories there), not in this one
+        x = rng.choice(['a', 'b', 'd', 'sub'])
+        prior = [rng.choice([_reg(rng, x + '/readme.txt'), _dir(rng, x)])]
+        ms = [_sym(x, '.'), _sym('esc', x + '/..'), _reg(rng, 'esc/' + rng.choice(['pwned.txt', 'sentinel.txt']))]
+        if rng.random() < 0.4:
+            ms = ms[:2] + [_reg(rng, 'esc/outdir/keep.txt')]
+        return how, prior, rng.choice(['fresh', 'populated']), ms
+    if v == 1:          # through a link the user made in this directory only
+        ms = [rng.choice([_reg(rng, 'ext/new.txt'), _reg(rng, 'ext/keep.txt'), _dir(rng, 'ext/nd'), _sym('ext/back', '../install/y'),
+                          _reg(rng, 'k/old.txt'), _reg(rng, 'self/f.txt'), _hard('ext/h', 'f.txt')])]
+        return how, _prior(rng), 'populated', ms
+    if v == 2:
+        return how, _prior(rng), rng.choice(['fresh', 'populated']), _repoint(rng)
+    if v == 3:          # a hard link whose target exists in the earlier directory only / in this one only
+        ms = [_hard('h', rng.choice(['a/readme.txt', 'f.txt', 'pre/old.txt', 'l/readme.txt'])), _reg(rng, 'h')]
+        return how, [_reg(rng, 'a/readme.txt'), _reg(rng, 'l/readme.txt')], rng.choice(['fresh', 'populated']), ms
+    if v == 4:
+        kind, ms = _scenario(rng)
+        return how, _prior(rng), 'populated' if kind == 'user-link' else rng.choice(['fresh', 'populated']), ms
+    return how, _prior(rng), rng.choice(['fresh', 'populated']), _benign(rng, rng.randint(1, 5))
+
+
 def _scenario(rng):
     r = rng.randrange(27)
     if r >= 25:
@@ -412,7 +480,13 @@ def gen_cases(rng, tier):
         if rng.random() < 0.09:
             first, ms = _history(rng)
             cases.append({'pre': rng.choice(['fresh', 'fresh', 'populated']), 'first': first, 'members': ms,
-                          'gz': rng.random() < 0.5, 'stream': 'history' if first else 'duplicate-names'})
+                          'gz': rng.random() < 0.5, 'stream': 'history' if first else 'duplicate-names',
+                          'how': rng.choice(HOWS) if rng.random() < 0.3 else 'abs'})
+            continue
+        if rng.random() < 0.07:
+            how, prior, pre, ms = _respelled(rng)
+            if _members_safe(ms) and _members_safe(prior):
+                cases.append({'pre': pre, 'members': ms, 'gz': rng.random() < 0.5, 'stream': 'respelled', 'how': how, 'prior': prior})
             continue
         kind, ms = _scenario(rng)
         if kind not in ('benign',) and rng.random() < 0.3:
@@ -422,7 +496,15 @@ def gen_cases(rng, tier):
         pre = 'populated' if (kind == 'user-link' or rng.random() < 0.4) else 'fresh'
         if not _members_safe(ms):
             continue
-        cases.append({'pre': pre, 'members': ms, 'gz': rng.random() < 0.5, 'stream': kind})
+        case = {'pre': pre, 'members': ms, 'gz': rng.random() < 0.5, 'stream': kind}
+        if rng.random() < 0.3:
+            case['how'] = rng.choice(HOWS[1:])
+            if case['how'] in HOWS_PRIOR and rng.random() < 0.25:
+                case['prior'] = _prior(rng)
+        if rng.random() < 0.15:
+            for m in ms:
+                m['uid'] = rng.choice([0, 1000, 65534])
+        cases.append(case)
     if tier == 'thorough':
         for ms in _small_scope():
             cases.append({'pre': 'fresh', 'members': ms, 'gz': False, 'stream': 'small-scope'})
@@ -489,13 +571,15 @@ def _build_archive(path, members, P, top, gz):
         for m in members:
             ti = tarfile.TarInfo(m['name'].replace('$P', P).replace('$T', top))
             ti.mtime = MTIME
+            if 'uid' in m:
+                ti.uid, ti.gid, ti.uname, ti.gname = m['uid'], m['uid'], 'u%d' % m['uid'], 'g%d' % m['uid']
             if m['k'] == 'reg':
                 data = m['data'].encode()
                 ti.type, ti.size, ti.mode = tarfile.REGTYPE, len(data), m.get('mode', 0o644)
                 t.addfile(ti, io.BytesIO(data))
                 continue
             if m['k'] == 'dir':
-                ti.type, ti.mode = tarfile.DIRTYPE, 0o755
+                ti.type, ti.mode = tarfile.DIRTYPE, m.get('mode', 0o755)
             elif m['k'] == 'sym':
                 ti.type, ti.linkname = tarfile.SYMTYPE, m['target'].replace('$P', P)
             elif m['k'] == 'hard':
@@ -516,8 +600,35 @@ def _classify_exc(e):
     return 'other'
 
 
+def _spelling(how, P, W=None):
+    """(working directory or None, text): how the caller names <P>/install (<W>/install for the earlier call)"""
+    base = W or P
+    return {'abs': (None, os.path.join(base, 'install')),
+            'trail': (None, os.path.join(base, 'install') + '/'),
+            'rel': (base, 'install'),
+            'dotted': (base, './install/.'),
+            'dot': (os.path.join(base, 'install'), '.'),
+            'up': (os.path.join(base, 'outdir'), '../install'),
+            'sym': (None, os.path.join(P, 'inst')),          # <P>/inst -> install (or -> w1/install, earlier)
+            'relsym': (P, 'inst')}[how]
+
+
+def _call(fn, archive, cwd, text):
+    """fn(archive, text) from the working directory cwd; the working directory of the harness is always restored"""
+    old = os.getcwd()
+    try:
+        if cwd:
+            os.chdir(cwd)
+        fn(archive, text)
+    finally:
+        os.chdir(old)
+
+
 def run_impl(case, ctx):
     from kapture.converter.downloader.archives import untar_file
+    how = case.get('how', 'abs')
+    if how not in HOWS or (case.get('prior') and (how not in HOWS_PRIOR or not _members_safe(case['prior']))):
+        raise ValueError('case violates the sandbox safety bound of the harness')
     if not _members_safe(case['members']):
         raise ValueError('case violates the sandbox safety bound of the harness')
     depth = _depth_for(case['members'])
@@ -536,6 +647,39 @@ def run_impl(case, ctx):
     try:
         _build_tree(P, case['pre'])
         first_problem = None
+        cwd, text = _spelling(how, P)
+        if case.get('prior'):
+            # the process has installed another archive before, into <P>/w1/install, spelled exactly as the install
+            # directory of the judged call is (from another working directory / through the link before it was re-pointed)
+            W = os.path.join(P, 'w1')
+            os.makedirs(os.path.join(W, 'install'))
+            os.makedirs(os.path.join(W, 'outdir'))
+            if how in ('sym', 'relsym'):
+                os.symlink('w1/install', os.path.join(P, 'inst'))
+            archive0 = os.path.join(os.path.realpath(ctx['tmp']), 'archive0.tar')
+            _build_archive(archive0, case['prior'], P, top, False)
+            snap0 = _snapshot(top)
+            exc0 = None
+            with warnings.catch_warnings():
+                warnings.simplefilter('ignore')
+                try:
+                    _call(untar_file, archive0, *_spelling(how, P, W))
+                except Exception as e:
+                    exc0 = e
+            os.unlink(archive0)
+            snap1 = _snapshot(top)
+            winst = os.path.join(os.path.relpath(W, top), 'install')
+            moved = sorted(k for k in set(snap0) | set(snap1) if not (k == winst or k.startswith(winst + os.sep))
+                           and (snap0.get(k) or [None])[:2] != (snap1.get(k) or [None])[:2])
+            if moved:
+                first_problem = 'earlier archive: something outside its install directory was created or modified: ' + \
+                                ','.join(os.path.relpath(k, os.path.relpath(P, top)) for k in moved[:3])
+            elif exc0 is not None:
+                first_problem = 'earlier archive: a benign archive was not extracted: ' + type(exc0).__name__
+            if how in ('sym', 'relsym'):
+                os.remove(os.path.join(P, 'inst'))
+        if how in ('sym', 'relsym'):
+            os.symlink('install', os.path.join(P, 'inst'))
         if case.get('first'):
             # history: a first (benign) archive is extracted by the code under test, and judged, before the one compared
             if not _members_safe(case['first']):
@@ -547,7 +691,7 @@ def run_impl(case, ctx):
             with warnings.catch_warnings():
                 warnings.simplefilter('ignore')
                 try:
-                    untar_file(archive1, install)
+                    _call(untar_file, archive1, cwd, text)
                 except Exception as e:
                     exc1 = e
             os.unlink(archive1)
@@ -558,7 +702,7 @@ def run_impl(case, ctx):
                                         and (snap0.get(k) or [None])[:2] != (snap1.get(k) or [None])[:2]],
                     'pre': {os.path.relpath(k, prel0): v for k, v in snap0.items() if k.startswith(prel0 + os.sep)},
                     'final': {os.path.relpath(k, prel0): v for k, v in snap1.items() if k.startswith(prel0 + os.sep)}}
-            first_problem = oracle({'members': case['first']}, obs1)
+            first_problem = first_problem or oracle({'members': case['first']}, obs1)
         archive = os.path.join(os.path.realpath(ctx['tmp']), 'archive.tar' + ('.gz' if case['gz'] else ''))
         _build_archive(archive, case['members'], P, top, case['gz'])
         before = _snapshot(top)
@@ -575,7 +719,7 @@ def run_impl(case, ctx):
         with warnings.catch_warnings():
             warnings.simplefilter('ignore')
             try:
-                untar_file(archive, install)
+                _call(untar_file, archive, cwd, text)
             except BaseException as e:      # noqa: B036  (RecursionError, KeyError, ... are observed outcomes)
                 if isinstance(e, (KeyboardInterrupt, SystemExit)) or type(e).__name__ == 'CaseTimeout':
                     raise
@@ -610,7 +754,8 @@ def run_impl(case, ctx):
         return {os.path.relpath(k, prel): v for k, v in snap.items() if k.startswith(prel + os.sep)}
     return {'outcome': _classify_exc(exc), 'exc': None if exc is None else f'{type(exc).__name__}: {exc}'.replace(P, '$P').replace(top, '$T')[:300],
             'pre': under_p(before), 'final': under_p(after), 'outside_changed': [c.replace(prel, '$P') for c in changed],
-            'first_problem': first_problem, 'chain_ok': chain_ok, 'lib': lib, 'new_leaving': [list(x) for x in new_leaving], 'P': [c for c in P.split('/') if c], 'top': top}
+            'first_problem': first_problem, 'chain_ok': chain_ok, 'lib': lib, 'new_leaving': [list(x) for x in new_leaving], 'P': [c for c in P.split('/') if c], 'top': top,
+            'cwd': [c for c in (cwd or P).split('/') if c], 'text': text}
 
 
 # ---------------------------------------------------------------------------------------- oracle
@@ -721,8 +866,10 @@ def encode(case, obs):
     pre = _ctree(obs['pre'], inos)
     fin = _ctree(obs['final'], inos)
     lib = kv.clist(_LV.get(x, 'LOther') for x in obs['lib'])
-    return ('{| c_P := %s; c_pre := %s; c_members := %s; o_outcome := %s; o_final := %s; o_outside_same := %s; o_lib := %s |}'
-            % (kv.clist(kv.cstr(c) for c in obs['P']), pre, kv.clist(ms), _OC[obs['outcome']], fin,
+    return ('{| c_P := %s; c_pre := %s; c_members := %s; c_cwd := %s; c_text := %s; o_outcome := %s; o_final := %s; '
+            'o_outside_same := %s; o_lib := %s |}'
+            % (kv.clist(kv.cstr(c) for c in obs['P']), pre, kv.clist(ms), kv.clist(kv.cstr(c) for c in obs['cwd']),
+               kv.cstr(obs['text']), _OC[obs['outcome']], fin,
                kv.cbool(not obs['outside_changed'] and obs['chain_ok']), lib))
 
 
@@ -763,10 +910,13 @@ TECHNIQUE = ('Coq proof (confinement of every file-system effect of every member
 LEVEL_TEXT = ('Theorems in coq/Props/C18.v hold for every archive (any members, any order) and every initial tree: whatever '
               'the outcome (extracted, refused by the filter, OS error), nodes and file contents outside the install '
               'directory are unchanged; benign archives are extracted completely, every regular member with its content and '
-              'owner read/write. The pre-fix behaviour and tarfile\'s "data" filter alone are refuted by computed witnesses. '
+              'owner read/write. The install directory may be spelled in any way (C18_untar_spelled_confined, validated where written: '
+              'C18_spelling_validated_where_written) and a process may install any number of archives, the same text denoting '
+              'another directory each time (C18_history_confined). The pre-fix behaviour and tarfile\'s "data" filter alone are refuted by computed witnesses. '
               'The model is tied to the code by extracting generated archives with the real untar_file in a sandbox and '
               'comparing outcome class, complete resulting tree (kinds, link texts, contents, hard-link classes, owner rw '
-              'bits) and the standard filter\'s verdict on each member inside Coq.')
+              'bits), the directory the text of the call denotes (resolved by the model from the working directory) and the standard '
+              'filter\'s verdict on each member inside Coq.')
 LEVEL_NOTE = ('partial: the model of the standard library (tarfile 3.12 extraction, data_filter, posixpath.realpath) and of '
               'POSIX path resolution is validated only by the correspondence run; symlink chains that exhaust the model\'s '
               'fuel are compared on the safety outcome only; races with concurrent modification are out of scope.')
